@@ -135,6 +135,61 @@ pub fn str_pool(i: usize) -> String {
     }
 }
 
+/// String pools of the thorough tier (the quick tier uses `Base` = `str_pool` only).
+#[derive(Clone, Copy, PartialEq, Eq, Debug)]
+pub enum StrPool {
+    /// `str_pool`
+    Base,
+    /// 1/2/3/4-byte UTF-8 sequences, DEL, space, suffix pairs, 255- and 256-byte strings
+    Utf8,
+    /// strings around 2^16 bytes (65535, 65536, 70000; one ends in a two-byte sequence)
+    Long,
+    /// every cell carries the same text
+    Equal,
+    /// every cell carries its own text
+    Distinct,
+}
+pub const STR_POOLS_THOROUGH: [StrPool; 4] = [StrPool::Utf8, StrPool::Long, StrPool::Equal, StrPool::Distinct];
+impl StrPool {
+    pub fn name(self) -> &'static str {
+        match self {
+            StrPool::Base => "base",
+            StrPool::Utf8 => "utf8-widths",
+            StrPool::Long => "around-64KiB",
+            StrPool::Equal => "all-equal",
+            StrPool::Distinct => "all-distinct",
+        }
+    }
+    /// text of cell (record r, field f, element e) whose pool index is `i`
+    pub fn text(self, i: usize, r: usize, f: usize, e: usize) -> String {
+        match self {
+            StrPool::Base => str_pool(i),
+            StrPool::Utf8 => match i % 11 {
+                0 => String::new(),
+                1 => "\u{e9}".to_string(),
+                2 => "\u{20ac}".to_string(),
+                3 => "\u{1d11e}".to_string(),
+                4 => "a\u{20ac}b".to_string(),
+                5 => "ab".to_string(),
+                6 => "b".to_string(),
+                7 => "\u{7f}".to_string(),
+                8 => " ".to_string(),
+                9 => "a".repeat(255),
+                _ => "a".repeat(256),
+            },
+            StrPool::Long => match i % 5 {
+                0 => "x".repeat(65535),
+                1 => String::new(),
+                2 => "y".repeat(65536),
+                3 => "x".repeat(70000),
+                _ => format!("{}\u{e9}", "z".repeat(65534)),
+            },
+            StrPool::Equal => "same text".to_string(),
+            StrPool::Distinct => format!("s{r}.{f}.{e}"),
+        }
+    }
+}
+
 const U32P: [u32; 7] = [0, 1, 0x7FFF_FFFF, 0x8000_0000, 0xFFFF_FFFF, 0x0102_0304, 256];
 const I32P: [i32; 7] = [0, 1, -1, i32::MIN, i32::MAX, 0x0102_0304, -256];
 /// 0.0, -0.0, 1.0, -1.5, MAX, smallest subnormal, +inf, quiet NaN with payload
@@ -190,6 +245,24 @@ pub fn key_bits(n: usize, class: KeyClass, i: usize) -> u32 {
                 v[i]
             }
         }
+    } else if n < 10_000 {
+        // medium tables (thorough tier): every class straddles the sign bit; duplicates are guaranteed
+        let i = i as u64;
+        match class {
+            // ascending as unsigned numbers, the upper half has the top bit
+            KeyClass::Sorted => (i * 3) as u32 | if i as usize >= n / 2 { 0x8000_0000 } else { 0 },
+            // distinct (i < 10007), every third key has the top bit
+            KeyClass::Unsorted => ((i * 7919 + 13) % 10007) as u32 | if i % 3 == 0 { 0x8000_0000 } else { 0 },
+            // n/2 residues for n records; the top bit is a function of the residue
+            KeyClass::Dup => {
+                let k = ((i * 7919) % (n as u64 / 2)) as u32;
+                if k % 4 == 3 {
+                    k | 0x8000_0000
+                } else {
+                    k
+                }
+            }
+        }
     } else {
         let i = i as u64;
         match class {
@@ -211,6 +284,18 @@ pub fn key_bits(n: usize, class: KeyClass, i: usize) -> u32 {
 /// Ground-truth table: cell (r, f, e) takes pool value number r + 3f + 5e + variant;
 /// the key field (if any) takes the key sequence of the class.
 pub fn gen_table(s: &Sch, n: usize, class: KeyClass, variant: usize) -> Table {
+    gen_table_with(s, n, class, variant, StrPool::Base)
+}
+
+/// `gen_table` with the texts of String cells taken from `sp`
+pub fn gen_table_with(s: &Sch, n: usize, class: KeyClass, variant: usize, sp: StrPool) -> Table {
+    let cell = |ty: Ty, i: usize, r: usize, f: usize, e: usize| -> Cell {
+        if ty == Ty::Str && sp != StrPool::Base {
+            Cell::Str(sp.text(i, r, f, e))
+        } else {
+            pool(ty, i)
+        }
+    };
     let mut t = Vec::with_capacity(n);
     for r in 0..n {
         let mut rec = Vec::with_capacity(s.fields.len());
@@ -221,8 +306,8 @@ pub fn gen_table(s: &Sch, n: usize, class: KeyClass, variant: usize) -> Table {
                 continue;
             }
             match k.arr {
-                None => rec.push(pool(k.ty, r + 3 * f + variant)),
-                Some(len) => rec.push(Cell::Arr((0..len).map(|e| pool(k.ty, r + 3 * f + 5 * e + variant)).collect())),
+                None => rec.push(cell(k.ty, r + 3 * f + variant, r, f, 0)),
+                Some(len) => rec.push(Cell::Arr((0..len).map(|e| cell(k.ty, r + 3 * f + 5 * e + variant, r, f, e)).collect())),
             }
         }
         t.push(rec);
